@@ -67,8 +67,6 @@ DETECTION = {
     "C16-B": "missed: dask graph construction is outside the technique (C12 territory)",
     "C09-R3A": "not flagged by the C09 check (it covers the index computation, not the grouped kernel); the same change is caught by the C07 check "
                "(unstable argsort contract: ties reversed; long grouped replay): HDC_REPO=<worktree> ./check C07 exits 1 (seed C07-R3B is the same edit)",
-    "C02-R3A": "missed: exists only in floating point (a placeholder whose square overflows float64, |nodata| > 1.3e154); in the exact-real "
-               "regime w*(y-z)**2 and (w*(y-z))**2 are the same term for 0/1 weights",
     "C08-R3A": "not caught: the check stops with exit 3 (scipy.special.gammaincc has no contract); the defect itself exists only in floating point "
                "(the CDF rounding to exactly 1.0) and is outside the exact-real regime",
     "C02-R2": "not flagged by the C02 check (the kernel zero-fills masked cells, so both placeholder runs agree); caught by the C03 check "
